@@ -922,6 +922,14 @@ func (f *Frame) step(in ssa.Instruction) {
 				ft = st.Field(x.Field).Type()
 			}
 			f.set(x, APtr{obj: p.obj, path: pathStr(p.path, x.Field), typ: ft})
+		} else if p, ok := base.(APtr); ok && p.slice != nil && p.idx != nil {
+			// a field of an element of a slice of structs: element pointer plus field path
+			st, _ := deref(x.X.Type()).Underlying().(*types.Struct)
+			var ft types.Type
+			if st != nil {
+				ft = st.Field(x.Field).Type()
+			}
+			f.set(x, APtr{slice: p.slice, idx: p.idx, path: pathStr(p.path, x.Field), typ: ft})
 		} else if r, ok := base.(ARef); ok {
 			if p, ok := r.inner.(APtr); ok && p.obj != nil {
 				st, _ := deref(x.X.Type()).Underlying().(*types.Struct)
@@ -1389,6 +1397,12 @@ func (f *Frame) store(x *ssa.Store) {
 	}
 	v := f.val(x.Val)
 	if p.slice != nil && p.idx != nil {
+		if _, isStruct := p.slice.elem.Underlying().(*types.Struct); isStruct || p.path != "" {
+			p.slice.root.elemWritten = true
+			if p.path != "" {
+				return
+			}
+		}
 		w := &Write{off: p.slice.off.add(p.idx.a), width: affConst(1), kind: wByte, val: v, pos: f.posStr(x.Pos()), state: f.cur, fn: f.fn}
 		p.slice.root.writes = append(p.slice.root.writes, w)
 		return
@@ -1432,6 +1446,16 @@ func (f *Frame) load(x *ssa.UnOp) AV {
 			return f.an.u.symbolic("global:"+g.g.String(), x.Type())
 		}
 		return f.an.u.symbolic(f.key+x.Name(), x.Type())
+	}
+	if p.slice != nil && p.idx != nil && p.path != "" {
+		// field of an element of a slice of structs: for input memory that nothing wrote to, a
+		// canonical value named by root, index and field path (two loads of a[i].f agree)
+		s := p.slice
+		if s.root.fresh || s.root.elemWritten || s.isNil {
+			return f.an.u.symbolic(f.key+x.Name(), x.Type())
+		}
+		abs := f.canonAff(s.off.add(p.idx.a))
+		return f.an.u.symbolic(fmt.Sprintf("%s[%s]%s", s.root.key, abs.String(), p.path), x.Type())
 	}
 	if p.slice != nil && p.idx != nil {
 		s := p.slice
